@@ -20,6 +20,22 @@ macro_rules! gproof {
         }
     };
 }
+/// A may-refuse obligation: the call may end in a panic at a declared site (driver checks every
+/// failed check against the site) or return, in which case the assertions after it must hold.
+macro_rules! gmay {
+    ($(#[$m:meta])* fn $name:ident() $body:block) => {
+        #[kani::proof]
+        #[kani::should_panic]
+        #[kani::stub(alloc::alloc::alloc, crate::vrt::ghost_alloc)]
+        #[kani::stub(alloc::alloc::dealloc, crate::vrt::ghost_dealloc)]
+        #[kani::stub(alloc::alloc::dealloc_nonnull, crate::vrt::ghost_dealloc_nn)]
+        $(#[$m])*
+        fn $name() {
+            kani::cover!(true, "START");
+            $body;
+        }
+    };
+}
 /// A never-returns obligation: the call must not return normally (the only cover in the
 /// harness is RETURNED and must be unreachable); the driver also checks every failed check
 /// belongs to the declared refusal site.
